@@ -294,6 +294,14 @@ class Universe:
             return self.TRUE
         if py is False:
             return self.FALSE
+        if isinstance(py, slice):
+            key = ("slice", repr(py))
+            if key not in self._lits:
+                c = z3.Const("lit_slice_%s" % repr(py), V)
+                self._lits[key] = c
+                self.axioms.append(ty(c) == TAG["object"])
+                self._distinct_pool.append(c)
+            return self._lits[key]
         key = (type(py).__name__, repr(py))
         if key in self._lits:
             return self._lits[key]
